@@ -100,6 +100,8 @@ fixed('C15', 'C15/move:no-anchor', 'f063e16', 'children.move(x) without anchor r
 fixed('C16', 'C16/stale.lremove', 'ecaaa4c', 'a children view taken before sort() writes back a stale list and drops a later-appended child (F-T13)',
       H([1, 2, 3, 4], [['children=', ['t', 't0'], ['t1', 't2'], 'list'], ['stale.get', 's0', ['t', 't0']], ['sort', ['t', 't0'], 'name', False],
                        ['append', ['t', 't0'], 't3'], ['stale.use', 's0', ['lremove', ['t', 't0'], 't1']]]))
+fixed('C16', 'C16/view.succs.remove', '83854cf', 'a successors view taken before an edit is stale: view.remove(x) answers False and leaves x linked (F-T14)',
+      H([1, 2, 3], [['linkview.get', 'v0', ['succs', 't0']], ['succs.append', 't0', 't1'], ['linkview.use', 'v0', ['succs.remove', 't0', 't1']]]))
 fixed('C15', 'C15/children=:list', '280ae80', 'a.children=[Task(5),Task(5)] raises after detaching the old children (F-T8)',
       H([1, 5, 5, 9], [['children=', ['t', 't0'], ['t3'], 'list'], ['children=', ['t', 't0'], ['t1', 't2'], 'list']]))
 
